@@ -162,7 +162,14 @@ fn configs(tier: verif_common::Tier, shape: Option<&str>) -> Vec<Cfg> {
         let mut modes = base.to_vec();
         // Graceful with an effectively unbounded timeout (Duration::MAX), and with a huge finite
         // one (u64::MAX / 4 s) in the smaller shapes.
-        if tier.is_thorough() || !custom.is_empty() || !(workers == 2 && clients == 2) {
+        let unbounded = if !custom.is_empty() {
+            true
+        } else if tier.is_thorough() {
+            clients <= 2
+        } else {
+            !(workers == 2 && clients == 2)
+        };
+        if unbounded {
             modes.push(Mode::Unbounded);
         }
         let small = if tier.is_thorough() { clients <= 2 } else { clients <= 1 };
